@@ -159,6 +159,7 @@ def judge(w, loaded, model, contracts, call, tid, meta) -> None:
             if exc is not hub.errinsts.get(tid):
                 w.violation("C09/instance-error-identity", "expected the very instance given as error, got {}: {!r}".format(
                     type(exc).__name__, exc), case, detail)
+
         elif form in ("factory", "method"):
             w.count("factory_calls", len(err_events))
             made = hub.factory_made.get(tid, [])
@@ -181,6 +182,15 @@ def judge(w, loaded, model, contracts, call, tid, meta) -> None:
         cmp_o, cmp_e = runner.align(obs.keys(), exp)
         if cmp_o != cmp_e:
             w.violation("C09/trace-differs", "expected {} observed {}".format(cmp_e, cmp_o), case, detail)
+        if form == "instance" and exc is hub.errinsts.get(tid):
+            # ... and again on the following violations (the instance has been raised before and carries a traceback now)
+            for nth in (2, 3):
+                obs_n = runner.perform(loaded, model, full)
+                w.count("repeated_instance_violations")
+                if obs_n.returned or obs_n.exc is not hub.errinsts.get(tid):
+                    w.violation("C09/instance-error-identity", "violation #{} of the same contract: expected the very instance given as "
+                                "error, got {!r}".format(nth, "a normal return" if obs_n.returned else obs_n.exc), case, detail)
+                    break
         if w.counters["evaluations"] % 71 == 1:
             w.sample({"meta": meta, "exception": "{}: {}".format(type(exc).__name__, str(exc)[:200]),
                       "events": ["{}:{}".format(*k) for k in obs.keys()]})
